@@ -537,7 +537,10 @@ def replace_all(context, alloc_list):
         raise exception.ResourceProviderConcurrentUpdateDetected()
 
 
+@db_api.placement_context_manager.writer
 def delete_all(context, alloc_list):
+    # One transaction for both steps: a failure between them must not leave
+    # a consumer record without allocations behind.
     consumer_uuids = set(alloc.consumer.uuid for alloc in alloc_list)
     alloc_ids = [alloc.id for alloc in alloc_list]
     _delete_allocations_by_ids(context, alloc_ids)
